@@ -3,7 +3,7 @@
    are runtime behaviour that no executable model exhibits; they are
    explored by the recovery sweep, not proved). *)
 From Coq Require Import Reals Lra.
-From NV Require Import Base.RealExtra Gen.ModelFuncs Proofs.WeightsP Proofs.IdentP
+From NV Require Import Base.RealExtra Gen.ModelFuncs Proofs.WeightsP Proofs.IdentP Proofs.IdentMoreP
      Proofs.FormulasP Model.Formulas.
 Local Open Scope R_scope.
 
@@ -63,3 +63,23 @@ Proof.
   destruct (Rlt_dec delta cp); destruct (Rlt_dec 0 (cp - delta)); try lra; try reflexivity.
   rewrite Rpower_2 by assumption. reflexivity.
 Qed.
+
+(* the two models that are not power laws: identifiable from the whole curve.  Parameter
+   sets (modulus, contact point, baseline; geometry and -- for the layered model -- the
+   layer's modulus and thickness given, as in a fit that holds them fixed) that give the
+   same force at EVERY abscissa are equal: the baseline is read off far from contact, the
+   contact point where the force leaves it (the in-contact force is strictly positive), the
+   modulus at one depth (the force is injective in it) *)
+Theorem C01_identifiable_series : forall E E' R nu cp cp' bl bl',
+  0 < E -> 0 < E' -> 0 < R -> 0 < 1 - nu ^ 2 ->
+  (forall x, m_sneddon_spher_approx E' R nu cp' bl' x = m_sneddon_spher_approx E R nu cp bl x) ->
+  E' = E /\ cp' = cp /\ bl' = bl.
+Proof. exact sneddon_identifiable. Qed.
+
+Theorem C01_identifiable_layered : forall EL R nuS nuL t, 0 < EL -> 0 < R -> 0 < t ->
+  0 <= nuS <= 1 / 2 -> 0 <= nuL <= 1 / 2 ->
+  forall ES ES' cp cp' bl bl', 0 < ES -> 0 < ES' ->
+  (forall x, m_power_layer_clifford_2009 ES' EL R nuS nuL t cp' bl' x
+             = m_power_layer_clifford_2009 ES EL R nuS nuL t cp bl x) ->
+  ES' = ES /\ cp' = cp /\ bl' = bl.
+Proof. exact layered_identifiable. Qed.
